@@ -14,15 +14,20 @@ def libc(ev, name):
     return ev["k"] == "call" and ev.get("callee") == name and not (ev.get("cfile") or "").startswith(facts.REPO)
 
 
-def count_on_paths(f, pred, start=None, start_idx=0, cap=3, prog=None):
+def count_on_paths(f, pred, start=None, start_idx=0, cap=3, prog=None, until=None):
     """Set of counts of events satisfying pred along non-throwing entry->exit paths (counts capped).  With prog: private helpers of
     the transport that contain such events are walked through (the routine may have been split)."""
+    ended = []
+
     def step(st, ev):
+        if until is not None and until(ev):
+            ended.append(st)        # the next round of the same job begins: this one is judged up to here
+            return None
         return min(st + 1, cap) if pred(ev) else st
     if prog is not None:
         step = lib.inlined_step(prog, step, lambda g: g.base.startswith(T) and g.id != f.id and any(pred(x) for h in lib.region(prog, g, within=lambda h: h.base.startswith(T)) for x in h.events("call")))
     exits, _ = cfg.run_automaton(f, 0, step, start=start, start_idx=start_idx)
-    return sorted({x.state for x in exits if x.kind != "throw"})
+    return sorted({x.state for x in exits if x.kind != "throw"} | set(ended))
 
 
 def run(ck):
@@ -342,9 +347,20 @@ def run(ck):
     # function) or the helper that reaches it
     may_accept = lib.Summaries(prog).lift_may(lambda e: libc(e, "accept4") or libc(e, "accept"), "accepts")
     acc = [e for e in hc.events("call") if not e.get("inlined") and may_accept(e)]
+    if not acc:
+        # the accept moved out of handleNewConnection (which is then handed the descriptor): judge the Listener function that accepts
+        # and hands over -- the routine round it, with what was introduced since expanded into it
+        for g_ in prog.flat_library_funcs():
+            if g_.base.startswith("Pistache::Tcp::Listener::") and g_.blocks:
+                a2 = [e for e in g_.events("call") if not e.get("inlined") and may_accept(e) and (e.get("callee") or "") != "Pistache::Tcp::Listener::handleNewConnection"]
+                if a2 and any((e.get("callee") or "") == "Pistache::Tcp::Listener::handleNewConnection" for e in g_.events("call")):
+                    hc, acc = g_, a2
+                    break
     ck.require(acc, "the call that accepts the connection (accept4 or a helper reaching it) not found in handleNewConnection")
-    cnt = count_on_paths(hc, lambda e: e["k"] == "call" and ((e.get("callee") or "") == "Pistache::Tcp::Listener::dispatchPeer" or libc(e, "close")),
-                         start=acc[0].block, start_idx=acc[0].idx + 1)
+    _own_direct = lambda e: e["k"] == "call" and ((e.get("callee") or "") == "Pistache::Tcp::Listener::dispatchPeer" or libc(e, "close"))
+    _own_lift = lib.Summaries(prog).lift_must(_own_direct, "owns-accepted-fd")
+    cnt = count_on_paths(hc, lambda e: e["k"] == "call" and not e.get("inlined") and _own_lift(e),
+                         start=acc[0].block, start_idx=acc[0].idx + 1, until=lambda e: any(e is a_ for a_ in acc))
     # a path on which the accept call is known to have returned a negative value has no descriptor to own
     fdv0 = [d_["var"] for d_ in hc.blocks[acc[0].block].elems[acc[0].idx + 1:] if d_["k"] == "decl" and (d_.get("icall") or "") in ("accept4", "accept", acc[0].get("callee"))][:1]
     if cnt != [1] and fdv0:
@@ -352,7 +368,7 @@ def run(ck):
             lib.edge_establishes(b_.term, k_, fdv0[0], ("<",), lambda r_: r_.get("const") == 0 or (r_.get("t") or "").strip() == "0") or
             lib.edge_establishes(b_.term, k_, fdv0[0], ("==", "<="), lambda r_: r_.get("const") == -1 or (r_.get("t") or "").replace(" ", "") == "-1"))}
         if negs_:
-            owned_ = lambda e: e["k"] == "call" and ((e.get("callee") or "") == "Pistache::Tcp::Listener::dispatchPeer" or libc(e, "close"))
+            owned_ = lambda e: e["k"] == "call" and not e.get("inlined") and _own_lift(e)
             loose_ = [x for x in cfg.exits_without(hc, owned_, start_block=acc[0].block, start_idx=acc[0].idx + 1,
                                                    avoid_edge=lambda st, blk, k, succ: None if (blk.id, k) in negs_ else st) if x.kind != "throw"]
             if not loose_ and max(cnt) == 1:
